@@ -111,4 +111,16 @@ Section Entry.
         end
     | _ => Err OtherError
     end.
+  (* the LSODA problem instance: Fd(9), prev_o(9n), prev_f(n), t0, t1 ->
+     t0, y0(9+10n), t_bound, atol(9+10n), rtol, first_step *)
+  Definition run_problem (n : nat) (xs : list F) : res (list F) :=
+    let '(Fd, r) := take 9 xs in
+    let '(o, r) := take (9 * n) r in
+    let '(f, r) := take n r in
+    match r with
+    | [t0; t1] =>
+        let P := lsoda_problem_of Fd {| sn_o := chunks9 o n; sn_f := f |} t0 t1 in
+        Ok (lp_t0 P :: lp_y0 P ++ lp_tb P :: lp_atol P ++ [lp_rtol P; lp_first P])
+    | _ => Err OtherError
+    end.
 End Entry.
